@@ -225,6 +225,34 @@ def origins_through_try(body, o, depth=6):
     return out
 
 
+def same_value_locals(body, o, depth=24):
+    """locals that hold (a borrow / a copy / an Option or Result wrapping of) the same text as operand o: followed through copies,
+    borrows, pattern bindings and calls that hand their argument on unchanged (clone, deref, as_str, as_deref, to_owned, to_string,
+    unwrap_or(a, b) - both alternatives); NOT through calls that compute a new value (format!, strip_prefix, ..)"""
+    out, work = set(), [o]
+    while work and depth > 0:
+        depth -= 1
+        x = work.pop()
+        if not is_local_op(x) or x['l'] in out:
+            continue
+        out.add(x['l'])
+        for q, st in defs_of(body, x['l']):
+            if st['k'] == 'assign':
+                rv = st['rv']
+                if rv['k'] in ('use', 'cast'):
+                    work.append(rv['o'])
+                elif rv['k'] in ('ref', 'rawptr'):
+                    work.append({'l': rv['pl']['l'], 'p': []})
+                elif rv['k'] == 'agg' and rv.get('var') in ('Some', 'Ok') and len(rv.get('ops', [])) == 1:
+                    work.append(rv['ops'][0])
+            elif st['k'] == 'call' and st['args']:
+                if call_matches(st, TRANSPARENT_CALLS + r'|Option::<T>::(as_deref|as_ref|as_mut|cloned|copied|unwrap|expect|unwrap_or_default)$'):
+                    work.append(st['args'][0])
+                elif call_matches(st, r'Option::<T>::(unwrap_or|or)$|Result::<T, E>::(unwrap_or|or)$'):
+                    work.extend(st['args'])
+    return out
+
+
 def receiver_chain_locals(body, o, depth=24):
     """every local on the chain that leads back from operand o through copies, borrows and the RECEIVER (first argument) of calls:
     `guard.files.iter().any(..)` -> {.., the iterator, the slice reference, the deref result, the guard}"""
